@@ -138,7 +138,7 @@ def lean_build_and_audit(prop, thorough=False):
 
 # properties whose model is additionally tied to the source by the translator (harness/translate.py): the formulas of the
 # temperature / variance-propagation block are re-read from the current source, emitted as Lean, and proved equal to the model
-TRANSLATED = {"C01", "C02", "C04", "C05", "C06", "C07", "C08", "C12", "C14", "C19"}   # = translate.SECTIONS
+TRANSLATED = {"C01", "C02", "C03", "C04", "C05", "C06", "C07", "C08", "C12", "C14", "C19"}   # = translate.SECTIONS
 
 
 def translated_obligations(prop, res):
@@ -159,7 +159,7 @@ def translated_obligations(prop, res):
         res["problems"].append({"kind": "translation", "detail": f"{type(e).__name__}: {e}"})
         return
     info["term_names"] = names
-    text += "\n#audit_ns DtsVerif.Gen\n#audit_ns DtsVerif.GenLayout\n#audit_ns DtsVerif.GenTime\n#audit_ns DtsVerif.GenGuards\n#audit_ns DtsVerif.GenShift\n#audit_ns DtsVerif.GenObs\n#audit_ns DtsVerif.GenReduce\n"
+    text += "\n#audit_ns DtsVerif.Gen\n#audit_ns DtsVerif.GenLayout\n#audit_ns DtsVerif.GenTime\n#audit_ns DtsVerif.GenGuards\n#audit_ns DtsVerif.GenShift\n#audit_ns DtsVerif.GenObs\n#audit_ns DtsVerif.GenReduce\n#audit_ns DtsVerif.GenDesign\n"
     text = text.replace("import DtsVerif.Props.C06\n", "import DtsVerif.Props.C06\nimport DtsVerif.AuditCmd\n", 1)
     olean = LEAN / ".lake" / "build" / "lib" / "lean" / "DtsVerif" / "Props" / "C06.olean"
     stamp = str(olean.stat().st_mtime_ns) if olean.exists() else "none"
